@@ -21,6 +21,7 @@ type ReplayRun struct {
 	Expect string      `json:"expect"`
 	Msg    string      `json:"msg,omitempty"`
 	Notes  []string    `json:"notes,omitempty"`
+	Observe map[string]string `json:"observe,omitempty"`
 }
 
 type ReplayFile struct {
@@ -255,7 +256,7 @@ func validateSamples(spec *Spec, cases []*Case, perCase int) (int, string) {
 			}
 			id := fmt.Sprintf("s%d", n)
 			n++
-			byPkg[c.Pkg] = append(byPkg[c.Pkg], ReplayRun{ID: id, Fn: c.Fn, Pkg: c.Pkg, Args: c.Args, Nondet: s.Inputs, Expect: "pass"})
+			byPkg[c.Pkg] = append(byPkg[c.Pkg], ReplayRun{ID: id, Fn: c.Fn, Pkg: c.Pkg, Args: c.Args, Nondet: s.Inputs, Expect: "pass", Observe: s.Observe})
 		}
 	}
 	ok := 0
